@@ -112,7 +112,7 @@ impl Pool {
     pub fn new(r: &mut Rng) -> Pool {
         let tag = format!("{}", (b'a' + r.below(17) as u8) as char);
         let mk = |p: &str, n: usize| -> Vec<String> { (0..n).map(|i| format!("{}{}_{}", p, tag, i)).collect() };
-        Pool { labels: mk("l", 7), equs: mk("k", 5), sets: mk("s", 3), defs: mk("d", 3), defines: mk("F", 4), macros: mk("m", 3), tag }
+        Pool { labels: mk("l", 7), equs: mk("k", 5), sets: mk("s", 3), defs: mk("d", 5), defines: mk("F", 4), macros: mk("m", 3), tag }
     }
 }
 
@@ -471,10 +471,16 @@ impl<'a> Gen<'a> {
             }
             return self.code_block();
         }
-        let n = free[0].clone();
-        let reg = self.r.range(16, 31) as u32;
-        self.defs.push((n.clone(), reg));
-        Node::Lines(vec![format!(".def {} = r{}", n, reg)])
+        // one to three aliases at once; now and then a register that already has an alias (or
+        // two) gets another one
+        let mut lines = vec![];
+        let count = (self.r.range(1, 3) as usize).min(free.len());
+        for n in free.into_iter().take(count) {
+            let reg = if !self.defs.is_empty() && self.r.chance(1, 2) { self.defs[self.defs.len() - 1].1 } else { self.r.range(16, 31) as u32 };
+            self.defs.push((n.clone(), reg));
+            lines.push(format!(".def {} = r{}", n, reg));
+        }
+        Node::Lines(lines)
     }
     fn define_block(&mut self) -> Node {
         let n = self.pool.defines[self.r.usize(self.pool.defines.len())].clone();
